@@ -468,6 +468,36 @@ pub fn case(ctx: &mut Ctx, idx: u64) {
             if let Ok(p) = guard(|| api::perf_calc(rosu_pp::Performance::new(&map).difficulty(d.clone()).mode_or_ignore(m))) {
                 outputs.push(("performance-embedded", p.difficulty_attributes()));
             }
+            // ... and in the result of a performance calculator that was configured through its OWN setters (the mode-agnostic
+            // enum forwards each of them to the mode's builder): on the converted map, and on the unconverted map after the
+            // switch (not for mania, whose conversion depends on the mods present at the switch)
+            let own_setters = |mut p: rosu_pp::Performance<'_>| {
+                p = p.mods(gm.clone());
+                if let Some(c) = spec.clock {
+                    p = p.clock_rate(c.clamp(0.01, 100.0));
+                }
+                if let Some((v, f)) = spec.od {
+                    p = p.od(v, f);
+                }
+                if let Some((v, f)) = spec.ar {
+                    p = p.ar(v, f);
+                }
+                if let Some((v, f)) = spec.cs {
+                    p = p.cs(v, f);
+                }
+                if let Some((v, f)) = spec.hp {
+                    p = p.hp(v, f);
+                }
+                api::perf_calc(p)
+            };
+            if let Ok(p) = guard(|| own_setters(rosu_pp::Performance::new(&conv))) {
+                outputs.push(("performance(converted).own-setters", p.difficulty_attributes()));
+            }
+            if map.mode == GameMode::Osu && m != GameMode::Mania {
+                if let Ok(p) = guard(|| own_setters(rosu_pp::Performance::new(&map).mode_or_ignore(m))) {
+                    outputs.push(("performance.switch.own-setters", p.difficulty_attributes()));
+                }
+            }
             let builders = [("difficulty(&d)", &b_via_difficulty), ("own-setters", &b_via_setters)];
             for (label, attrs) in outputs.iter().flat_map(|o| builders.iter().map(move |bb| (format!("{}/builder:{}", o.0, bb.0), &o.1, bb.1))).map(|(l, a, b)| ((l, b), a)) {
                 let (label, b) = label;
